@@ -133,7 +133,49 @@ def normalize(case):
             "hascompose": False, "compose": [],
         }]
         case["top"] = 1
+    if "orcmax" not in case:
+        case["orcmax"], case["orcalt"] = _orc_bounds(case)
     return case
+
+
+def _pick_sites(stmts):
+    """(number of random picks a block can ask for in one pass, largest number of alternatives)"""
+    n, alt = 0, 1
+    for s in stmts:
+        k = s[0]
+        if k in ("choose", "schoose"):
+            n, alt = n + 1, max(alt, len(s[1]))
+        elif k in ("shuffle", "sshuffle"):
+            n, alt = n + len(s[1]) - 1, max(alt, len(s[1]))
+        elif k == "rand":
+            n, alt = n + 1, max(alt, s[2] - s[1] + 1)
+        elif k == "if":
+            for b in (s[2], s[3]):
+                m, a = _pick_sites(b)
+                n, alt = n + m, max(alt, a)
+        elif k == "while":
+            m, a = _pick_sites(s[2])
+            n, alt = n + 2 * m, max(alt, a)
+        elif k == "try":
+            for b in [s[1]] + [h for _c, h in s[2]]:
+                m, a = _pick_sites(b)
+                n, alt = n + m, max(alt, a)
+    return n, alt
+
+
+def _orc_bounds(case):
+    """Bounds of the oracle scripts of Dynamics.tla (picks made by compose blocks / monitors in one
+    ScenarioStep / MonitorResume).  A bound that is too small loses behaviours, which the checks
+    detect (the weights of a case's behaviours no longer sum to 1)."""
+    monset = set(m for sd in case["sdefs"] for m in sd["monitors"])
+    n, alt = 0, 1
+    for sd in case["sdefs"]:
+        m, a = _pick_sites(sd["compose"] if sd["hascompose"] else [])
+        n, alt = n + m, max(alt, a)
+    for d in monset:
+        m, a = _pick_sites(case["defs"][d - 1]["body"])
+        n, alt = n + m, max(alt, a)
+    return (min(n, 4), alt) if n else (0, 1)
 
 
 def _sblock(stmts, ind, name, sname):
@@ -148,6 +190,10 @@ def _sblock(stmts, ind, name, sname):
             out.append(f"{pad}do " + ", ".join(f"{sname(x)}()" for x in s[1]) + f" for {s[2]} {s[3]}")
         elif k == "sdountil":
             out.append(f"{pad}do " + ", ".join(f"{sname(x)}()" for x in s[1]) + f" until {_cond(s[2])}")
+        elif k == "schoose":
+            out.append(f"{pad}do choose {_items(s[1], sname)}")
+        elif k == "sshuffle":
+            out.append(f"{pad}do shuffle {_items(s[1], sname)}")
         elif k == "if":
             out.append(f"{pad}if {_cond(s[1])}:")
             out += _sblock(s[2], ind + 1, name, sname) or [pad + "    pass"]
@@ -266,7 +312,8 @@ def make_simulator(vlog, sched):
 
         def executeActions(self, allActions):
             vlog.EVENTS.append(
-                ["exec", self.currentTime, [[a.i for a in allActions[o]] if o in allActions else [] for o in self.objects]]
+                ["exec", self.currentTime, [[a.i for a in allActions[o]] if o in allActions else [] for o in self.objects],
+                 [self.objects.index(o) + 1 for o in allActions]]   # the order of the entries: the order of application
             )
             super().executeActions(allActions)
 
